@@ -139,38 +139,50 @@ def replay_registry(h):
     import pandas as pd
     import biogeme.database as db
     import biogeme.expressions as ex
+    from biogeme.exceptions import BiogemeError
 
     xs = [1.0, 2.0, 3.0]
     d = db.Database('reg', pd.DataFrame({'x': xs}))
 
-    def gen(code):
+    def gen(code, lay='rows'):
         def g(sample_size, number_of_draws):
-            return np.array([[float(code + ((2 * u + r) % 5)) for r in range(number_of_draws)] for u in range(sample_size)])
+            t = np.array([[float(code + ((2 * u + r) % 5)) for r in range(number_of_draws)] for u in range(sample_size)])
+            return t.T.copy() if lay == 'transposed' else t
         return g
 
     # the registry at the start: what the first steps imply (a type is registered before it is evaluated)
     first = {}
     for s_ in h['steps']:
         if s_['op'] == 'evaluate':
-            first.setdefault(s_['type'], s_['code'])
+            first.setdefault(s_['type'], (s_['code'], s_['lay']))
         else:
             first.setdefault(s_['type'], None)
-    reg = {t: (c if c is not None else 0) for t, c in first.items()}
-    d.set_random_number_generators({t: (gen(c), f'series {c}') for t, c in reg.items()})
+    reg = {t: (c if c is not None else (0, 'rows')) for t, c in first.items()}
+    d.set_random_number_generators({t: (gen(*c), f'series {c}') for t, c in reg.items()})
     out = []
     n = 0
     for k, s_ in enumerate(h['steps']):
         if s_['op'] == 'register':
-            reg[s_['type']] = s_['code']
-            d.set_random_number_generators({t: (gen(c), f'series {c}') for t, c in reg.items()})
+            reg[s_['type']] = (s_['code'], s_['lay'])
+            d.set_random_number_generators({t: (gen(*c), f'series {c}') for t, c in reg.items()})
             continue
         f = ex.MonteCarlo(ex.bioDraws('z', s_['type']) * ex.Variable('x'))
-        got = [float(v) for v in f.get_value_c(database=d, number_of_draws=s_['R'], prepare_ids=True)]
         n += 1
+        try:
+            got = [float(v) for v in f.get_value_c(database=d, number_of_draws=s_['R'], prepare_ids=True)]
+            refused = False
+        except BiogemeError:
+            got, refused = None, True
+        if refused != s_['refused']:
+            out.append(dict(what='a table handed back in the wrong layout ' + ('accepted' if s_['refused'] else 'refused although it is well laid out'), step=k,
+                            got=got, history=[(t['op'], t['type'], t['code'], t['lay'], t['R']) for t in h['steps'][: k + 1]]))
+            break
+        if refused:
+            continue
         want = [w / s_['R'] for w in s_['want']]
         if any(abs(g - w) > 1e-12 * max(1.0, abs(w)) for g, w in zip(got, want)) or len(got) != len(want):
             out.append(dict(what='Monte-Carlo mean after a change of the registered generator', step=k, got=got, want=want,
-                            history=[(t['op'], t['type'], t['code'], t['R']) for t in h['steps'][: k + 1]]))
+                            history=[(t['op'], t['type'], t['code'], t['lay'], t['R']) for t in h['steps'][: k + 1]]))
             break
     return dict(mismatches=out, n=n)
 
@@ -276,7 +288,7 @@ def body(chk: check.Check):
             chk.violation('mixed:value', {**dict(formula=desc), **m}, match=dict(kind='value', features=[]))
     chk.extra['mixed_logit_formulas'] = len(fres.emitted)
     # histories on one data set: the generator of a type is replaced between evaluations
-    rcfg = ('SPECIFICATION Spec\nCONSTANTS\n Types = {"TA", "TB"}\n Codes = {1, 7}\n Rs = {2, 3}\n XVals <- G_X\n MaxSteps = %d\n'
+    rcfg = ('SPECIFICATION Spec\nCONSTANTS\n Types = {"TA", "TB"}\n Codes = {1, 7}\n Layouts = {"rows", "transposed"}\n Rs = {2, 3}\n XVals <- G_X\n MaxSteps = %d\n'
             'INVARIANT Memoryless\nINVARIANT EmitInv\n' % (4 if quick else 5))
     rres = tlc.run('RegGen', rcfg, extra_modules={'RegGen': '---- MODULE RegGen ----\nEXTENDS DrawRegistry\nG_X == <<1, 2, 3>>\n====\n'}, workers='auto', timeout=900)
     chk.add_tlc('DrawRegistry: histories of registrations and evaluations on one data set', rres)
